@@ -29,8 +29,15 @@ from specs.nettrace import analyse, parse_ep, fmt_ep, Scn, kv
 from specs import handshake
 
 
+_BASE = bytes(range(256)) * 258          # byte i of a datagram with id d is (7d + i) mod 256
+
+
 def udp_payload(did, n):
-    return bytes(((7 * did + i) & 0xff) for i in range(n))
+    o = (7 * did) & 0xff
+    return _BASE[o:o + n]
+
+
+_fnv_cache = {}
 
 
 def _payload_matches(rc, snd):
@@ -38,12 +45,16 @@ def _payload_matches(rc, snd):
     if n > snd["len"]: return False
     if rc["cap"] is not None and n < snd["len"] and n != rc["cap"]: return False      # a short read only by truncation
     if rc["cap"] is not None and n == snd["len"] and n > rc["cap"]: return False
-    exp = udp_payload(snd["id"], snd["len"])[:n]
     if rc["kind"] == "data":
         v = rc["val"]
         if v == "-": v = ""
-        return exp.hex() == v.lower()
-    return "%016x" % handshake.fnv(exp) == rc["val"].lower()
+        return udp_payload(snd["id"], n).hex() == v.lower()
+    key = ((7 * snd["id"]) & 0xff, n)
+    h = _fnv_cache.get(key)
+    if h is None:
+        if len(_fnv_cache) > 4096: _fnv_cache.clear()
+        h = "%016x" % handshake.fnv(udp_payload(snd["id"], n)); _fnv_cache[key] = h
+    return h == rc["val"].lower()
 
 
 def check(impl, scn_text, an=None):
@@ -87,7 +98,9 @@ def stats(impl, scn_text, an=None):
 def _udp_pairs(an):
     """each receive that reports a sender -> the sends it can stem from (same destination endpoint as one the
     receiving socket was bound to, same payload, sent earlier)"""
+    if getattr(an, "_udp_pairs", None) is not None: return an._udp_pairs
     out = []
+    an._udp_pairs = out
     for rc in an.udp_recvs:
         if rc["ep"] is None: continue
         u = an.udp.get(rc["sock"])
@@ -159,13 +172,13 @@ def _check(impl, scn_text, an=None):
         misuse = any(arr.pos < p < comp.pos for p in an.reopened.get(comp.acc.name, []))
         for (pos, ctx, val) in inc.locals:
             e = parse_ep(val)
-            if e is not None and c.dialled is not None and e != c.dialled and not misuse:
+            if e is not None and c.dialled is not None and e != c.dialled and not misuse and not c.ambiguous:
                 F.append(("c13-tcp-own-local", "%s (accepted): local endpoint reads %s, the connector dialled %s" % (inc.sock, val, fmt_ep(c.dialled))))
                 break
         # both directions work through the NAT
         if natted or (c.dialled and scn.ext_of(c.dialled[0])):
             for (x, y) in ((inc, c), (c, inc)):
-                if x.reads and x.peer is y:
+                if x.reads and x.peer is y and not c.ambiguous:
                     bad = handshake.check_reads(x, handshake.written(y))
                     if bad: F.append(("c13-tcp-both-ways", "connection %s -> %s through NAT: %s" % (c.sock, inc.sock, bad[0])))
     return F
@@ -210,7 +223,10 @@ def canon(lines, scn):
                 if pre and not t.startswith(pre): continue
                 if not pre and "=" in t: continue
                 e = parse_ep(t[len(pre):])
-                if e is not None and e[0] in grp:
+                if e is not None and e[1] == 0 and (e[0] in grp or e[0] == "0.0.0.0"):
+                    # packets that carry no source (ACKs): the NAT stamps its address on the empty endpoint
+                    tk[i] = "%s<unset>:0" % pre
+                elif e is not None and e[0] in grp:
                     tk[i] = "%s%s:%d" % (pre, grp[e[0]], e[1])
                 break
         out.append(" ".join(tk))
